@@ -3,12 +3,17 @@
 # check, git checkout) and print one line per change: caught (exit 1 with a VIOLATION line) or MISSED.
 set -u
 tier=${1:-quick}
+# all_seeds.sh <tier> <i> <n>: only every n-th seed starting with the i-th (shards run side by side, each with its own
+# O2P_REPO worktree and VERIF_DIR copy: see tools/all_seeds_parallel.sh)
+shard=${2:-0}; nshards=${3:-1}; k=-1
 for d in /verif/seeded/*/; do
   name=$(basename "$d")
+  k=$((k+1)); [ $((k % nshards)) -ne "$shard" ] && continue
   prop=$(/venv/bin/python -c "import json,sys; print(json.load(open('$d/meta.json'))['property'])" 2>/dev/null | tail -1)
   out=$(LINES_OUT=400 /verif/tools/try_seed.sh "$prop" "$d/patch.diff" "$tier" 2>&1)
   rc=$(echo "$out" | grep -a -o "exit=[0-9]*" | tail -1)
   nv=$(echo "$out" | grep -a -c "^VIOLATION")
   conc=$(echo "$out" | grep -a "^VIOLATION" | grep -a -vc "no-failing-input-found")
-  if [ "$rc" = "exit=1" ] && [ "$nv" -gt 0 ]; then echo "$name $prop caught violations=$nv concrete=$conc"; else echo "$name $prop MISSED ($rc)"; fi
+  gen=$(echo "$out" | grep -a "^VIOLATION" | grep -a -vc "a past failure fails again")
+  if [ "$rc" = "exit=1" ] && [ "$nv" -gt 0 ]; then echo "$name $prop caught violations=$nv concrete=$conc by_generators=$gen"; else echo "$name $prop MISSED ($rc)"; fi
 done
